@@ -134,6 +134,7 @@ class HW(ls.World):
         except OSError:
             pass
         self.sq.kick()
+        self.drain(tag)
         self.resets += 1
 
     def adopt_new_session(self, tag):
@@ -149,7 +150,29 @@ class HW(ls.World):
         except OSError:
             pass
         self.sq.kick()
+        self.drain(tag)
         self.resets += 1
+
+    def drain(self, tag):
+        """Answer (ERR) helper requests that do not belong to any running execution: requests of closed clients that
+        were still queued inside Squid are dispatched as soon as channels (or a new helper) become available."""
+        sess = self.sess[tag]
+        for _ in range(4):
+            stale = sess.take()
+            if sess.eof or not stale:
+                break
+            out = b''
+            for ln in stale.split(b'\n')[:-1]:
+                f = ln.split(b' ')
+                if f[0].isdigit():
+                    out += f[0] + b' ERR\n'
+                    self.next_id[tag] = max(self.next_id[tag], int(f[0]))
+                else:
+                    out += b'ERR\n'
+            if out:
+                sess.send(out)
+            self.sq.kick()
+            self._origin_step(None, ls.Exchange())
 
     def kick(self):
         self.transitions += 1
@@ -511,14 +534,20 @@ def exec_conc(w, F, case, n):
     ids, urls = {}, {}
     for ln in lines[:-1]:
         f = ln.split(b' ')
-        m = URL_RE.match(f[1])
+        m = URL_RE.match(f[1]) if len(f) > 1 else None
         if not f[0].isdigit() or not m or int(m.group(3)) != n:
-            raise HarnessError('unexpected helper line %r' % ln)
+            for c in clients:
+                c.close()
+            w.kick()
+            raise Stuck('unexpected helper line %r (a request of an earlier execution?)' % ln)
         r = int(m.group(4))
         ids[r], urls[r] = int(f[0]), f[1]
+    if sorted(ids.values()) != list(range(id_base + 1, id_base + R + 1)) or len(ids) != R:
+        for c in clients:
+            c.close()
+        w.kick()
+        raise Stuck('channel IDs %r do not continue from %d' % (ids, id_base))
     w.next_id[F.tag] = max(ids.values())
-    if sorted(ids.values()) != list(range(id_base + 1, id_base + R + 1)):
-        raise HarnessError('channel IDs %r do not continue from %d' % (ids, id_base))
     items = build_items(F, w, order, inj, ids, urls)
     stream = b''.join(x.data for x in items)
     cut, cls, itemkind = resolve_cut(F, items, tuple(pos) if pos is not None else None)
@@ -621,8 +650,8 @@ def warm_to(w, F, id_base, nbase=900000):
     """Bring the helper session's channel-ID counter to id_base (fresh session first if it is already beyond)."""
     if not F.conc:
         return
-    if w.next_id[F.tag] > id_base:
-        w.reset_session(F.tag)
+    if w.next_id[F.tag] != id_base:
+        w.reset_session(F.tag)       # a fresh session is also a clean one
     k = 0
     while w.next_id[F.tag] < id_base:
         todo = min(F.conc, id_base - w.next_id[F.tag])
@@ -659,7 +688,7 @@ def recover(w, F, r):
         if r['flush_ids']:
             sess.send(b''.join(b'%d ERR\n' % i for i in r['flush_ids']))
             w.kick()
-        sess.pump()
+        w.drain(F.tag)
         if sess.eof:
             w.adopt_new_session(F.tag)
     else:
